@@ -174,7 +174,11 @@ class SoftwareSwitchBase (object):
       self.flow_mod_handlers[value] = h
 
   def _gen_port_name (self, port_no):
-    return "%s.%s"%(dpid_to_str(self.dpid, True).replace('-','')[:12], port_no)
+    # Must fit in OFP_MAX_PORT_NAME_LEN for any port number (port numbers
+    # of 1000 and up take room from the DPID part)
+    dpid = dpid_to_str(self.dpid, True).replace('-','')[:12]
+    port_no = str(port_no)
+    return "%s.%s"%(dpid[:OFP_MAX_PORT_NAME_LEN-1-len(port_no)], port_no)
 
   def _gen_ethaddr (self, port_no):
     # May cause problems if you have large DPIDs...
